@@ -183,6 +183,14 @@ AckKept(e, r) ==
   (e.op = "iresp" /\ app.some /\ HasEntry(app.v.opts, OPT_BLOCK1) /\ r.out.k = "ok") =>
      (r.resp.some /\ ValsOf(r.resp.v.opts, OPT_BLOCK1) = ValsOf(app.v.opts, OPT_BLOCK1))
 
+\* C20, retention: whatever the call returns, state that the specification keeps for this key is not
+\* dropped by it (an upload buffer or a cached response disappearing on an error path, or on a request
+\* that cannot be answered, is state lost while it is still fresh)
+RetainOk(x, r) ==
+  (r.hasPost /\ r.out.k # "panic") =>
+     /\ (x.st.upload.some => r.post.upload.some)
+     /\ (x.st.cached.some => r.post.cached.some)
+
 Violated(e, pre, x, r) ==
   LET hadResp == IF e.op = "ireq" THEN NewResponse(MsgOf(e.req)).some ELSE e.app.some IN
   (IF C11Ok(e, pre, r, hadResp) THEN {} ELSE {"C11"})
@@ -192,6 +200,7 @@ Violated(e, pre, x, r) ==
   \cup (IF r.out.k = "panic" \/ RespOk(e, pre, x, r) THEN {} ELSE {"C08", "C10"})
   \cup (IF r.out.k = "panic" \/ C10ReqOk(e, pre, x, r) THEN {} ELSE {"C10"})
   \cup (IF HintOk(e, x, r) THEN {} ELSE {"C08", "C10"})
+  \cup (IF RetainOk(x, r) THEN {} ELSE {"C20"})
 
 (* ---- other keys (C12 isolation, C20 retention / purge) --------------------------- *)
 OthersOk(e, k) ==
